@@ -66,10 +66,10 @@ def run(ctx):
         runs.append(dict(mp=mp, groups=True, n=5 if q else 8, hmax=2 if q else 3, permmax=2 if q else 3, maxcases=40 if q else 500))
     for i, rr in enumerate(runs):
         nt = rr["n"] + 3
-        ch = srvfam.consts(ctx, NReq=rr["n"] + 2, Tags=set(range(1, nt + 1)), Fids={1}, Kinds={"Stat"}, SharedTags=rr["groups"],
+        ch = srvfam.consts(ctx, NReq=rr["n"] + 2, Tags=set(range(1, nt + 1)), Fids={1, 2}, Kinds={"Stat"}, SharedTags=rr["groups"],
                            Late=False, InitFids={1}, Maxpend=rr["mp"])
         hc = {"n": rr["n"], "m": 2, "hmax": rr["hmax"], "groups": rr["groups"], "close": False, "partial": False,
-              "kinds": ["Stat"], "maxcases": rr["maxcases"], "permmax": rr["permmax"]}
+              "kinds": ["Stat"], "maxcases": rr["maxcases"], "permmax": rr["permmax"], "unknownfids": True}
         tag = "held%d" % i
         hrep, tp, ep, bp = held_run(ctx, ch, hc, tag, 500000 + 10000 * i)
         rj, tl = srvfam.run_trace_validation(ctx, tp, ch, name="Srv9PTrace:" + tag)
